@@ -6,3 +6,6 @@ const RaceEnabled = false
 
 func raceOff() {}
 func raceOn()  {}
+
+func raceRelease(p *int32) {}
+func raceAcquire(p *int32) {}
